@@ -187,6 +187,9 @@ func singleDiffUniverse() ([]GM, []string) {
 	}
 	add("base", func(g *GM) {})
 	add("state", func(g *GM) { g.State = "select" })
+	// the state text includes what the runtime puts in parentheses ("chan receive (nil chan)",
+	// "select (no cases)", " (scan)" while the collector scans the stack): another state
+	add("state differing by a parenthesised suffix", func(g *GM) { g.State = "semacquire (scan)" })
 	add("creator func", func(g *GM) { g.Creator.Name = "spawn2" })
 	add("creator file", func(g *GM) { g.Creator.File = "/src/a/t.go" })
 	add("creator line", func(g *GM) { g.Creator.Line = 6 })
